@@ -145,9 +145,12 @@ type lockStep struct {
 }
 
 // im0Domain: instruction classes a mode-0 device may supply within C06's domain (RST p, CALL nn and
-// simple non-control instructions); control-flow oddities such as HALT, EI or a prefix are outside it.
+// complete non-control instructions that work on registers only); control-flow oddities such as HALT, EI or a lone prefix are outside it.
 var im0Domain = map[string]bool{"RST": true, "CALL": true, "NOP": true, "INC r": true, "DEC r": true, "LD r,n": true,
-	"LD r,r'": true, "ALU A,r": true, "ALU A,n": true}
+	"LD r,r'": true, "ALU A,r": true, "ALU A,n": true,
+	// complete register-only instructions, also prefixed ones (ED 4A, DD 09, CB 00, FD 23, DD 21 nn)
+	"ADD HL,rp": true, "ADC HL,rp": true, "SBC HL,rp": true, "INC rp": true, "DEC rp": true, "NEG": true, "ROT r": true, "BIT r": true,
+	"EX DE,HL": true, "EXX": true, "EX AF,AF'": true, "CPL": true, "SCF": true, "CCF": true, "DAA": true, "RxA": true, "LD rp,nn": true}
 
 type lockCand struct {
 	variant string
